@@ -192,12 +192,14 @@ fn gen_cases(ctx: &Ctx) -> Vec<Case> {
                     Opk::Reg { .. } => vec!["5", "0", "X", "Z+", "-Y", "Y+1", "undefined_name", "low(3)"],
                     // (a character literal holds exactly one character: 'AB' is not a way to write 'A')
                     Opk::Imm { .. } | Opk::ImmCom { .. } | Opk::Addr8l { .. } | Opk::Rel { .. } => vec!["r5", "r16", "X", "Z+", "-Y", "Y+1", "'AB'", "'10'", "''", "'\\n'", "\"A\"", "'A", "0x", "1 2", "1,"],
-                    Opk::Disp { .. } => vec!["X+1", "X+0", "X+63", "r5", "5"],
+                    // (ldd/std take Y+q and Z+q only: the other pointer forms belong to ld/st)
+                    Opk::Disp { .. } => vec!["X+1", "X+0", "X+63", "r5", "5", "Y+", "-Y", "Z+", "-Z", "X", "X+", "-X"],
                     Opk::Index(ix) => {
                         if form.mn == "lpm" || form.mn == "elpm" {
                             vec!["X", "Y", "X+", "Y+", "-X", "-Y", "-Z", "Z+1", "Y+1", "r5", "5"].into_iter().filter(|t| *t != ix.text()).collect()
                         } else {
-                            vec!["r5", "5", "X+1", "X+63"]
+                            // (ld/st take no displacement: that is ldd/std)
+                            vec!["r5", "5", "X+1", "X+63", "Y+5", "Z+3", "Y+63", "Z+1"]
                         }
                     }
                 };
@@ -526,7 +528,7 @@ pub fn run(ctx: &Ctx) -> i32 {
         "per instruction form and legal anchor tuple, one operand at a time leaves its ISA domain: every register r0..r31 in each register position, every number in [lo-300, hi+300] plus ±2^k, ±2^k±1, ±i64::MAX and i64::MIN in each numeric position, operand-kind substitutions, 0..arity-1 and arity+1 operands, and for every two-operand form the complete cross product every register x every register / boundary value (thorough: two operands out at once, ±70000 windows on 16/22-bit fields); plus a device sweep: every device of the table x every form it has x each operand just outside, just inside and far outside (by 4095..2^32) its field; exhaustive for those windows; every register, cross-product and kind-confusion line (and a quarter of the numeric windows; thorough: all) once more with registers through `.def` aliases and numbers through `.equ` symbols, and once more as the body of a macro with the operands as arguments; distinct_nontrivial = distinct must-reject source lines",
         &[
             "legality = refmodel/isa.rs operand domains (manual transcription)",
-            "8-bit immediates written as -128..-1 are accepted as two's complement or rejected (statement silent); ld/ldd and st/std cross-spellings are not probed except X+q, which no instruction encodes",
+            "8-bit immediates written as -128..-1 are accepted as two's complement or rejected (statement silent); ld/st written with a displacement and ldd/std written with increment, decrement or X forms are must-reject (the ISA defines no such form for that mnemonic); `ldd Rd, Y` without displacement is not probed",
         ],
     )
 }
